@@ -21,6 +21,12 @@ class Ang:
         self.v = v
 
 
+class Holds:
+    """an output that is a condition which must hold (symbolically an SB, concretely a bool); the reference side is ignored"""
+    def __init__(self, c):
+        self.c = c
+
+
 class Env:
     def __init__(self, symbolic):
         self.symbolic = symbolic
@@ -81,7 +87,9 @@ def angle_input(name, lo="0"):
 
 class Case:
     def __init__(self, name, inputs, run, ref, pre=None, timeout=60, tol=1e-6, signature=None, desc="",
-                 maxpaths=64, hints=None, abs_tol=1e-9):
+                 maxpaths=64, hints=None, abs_tol=1e-9, maxdepth=None, extra_assumptions=None):
+        self.maxdepth = maxdepth
+        self.extra_assumptions = extra_assumptions
         self.name, self.inputs, self.run, self.ref, self.pre = name, inputs, run, ref, pre
         self.timeout, self.tol, self.desc, self.maxpaths, self.hints = timeout, tol, desc, maxpaths, hints
         self.signature = signature or name
@@ -140,25 +148,41 @@ class Case:
             out = self.run(env, self._v)
             return out, self.ref(env, self._v, out)
 
-        for pc, (out, ref) in explore(body, maxpaths=self.maxpaths, setup=self._setup):
+        core.BOUND_HITS[0] = 0
+        for pc, (out, ref) in explore(body, maxpaths=self.maxpaths, setup=self._setup, maxdepth=self.maxdepth):
             npaths += 1
+            if self.extra_assumptions:
+                pc = list(pc) + [c.t if isinstance(c, SB) else c for c in self.extra_assumptions(self._v, out)]
             comps = list(_components(out, ref))
-            comps = [(cn, R.lift(a), R.lift(b), ia) for cn, a, b, ia in comps]
+            comps = [(cn, a if isinstance(a, Holds) else R.lift(a), b if isinstance(a, Holds) else R.lift(b), ia)
+                     for cn, a, b, ia in comps]
             for cname, a, b, is_ang in comps:
                 nm = f"{self.name}/p{npaths}/{cname}"
                 rp = {"case": self.name, "component": cname}
-                if is_ang:
-                    goals = [neq(a.cos(), b.cos()), neq(a.sin(), b.sin())]
+                marks = []
+                if isinstance(a, Holds):
+                    goals = [z3.Not(a.c.t if isinstance(a.c, SB) else z3.BoolVal(bool(a.c)))]
+                    nf = False
+                elif is_ang:
+                    m1, m2 = [], []
+                    goals = [neq(a.cos(), b.cos(), mark=m1), neq(a.sin(), b.sin(), mark=m2)]
+                    nf = all(bool(m) or z3.is_false(g) for m, g in zip((m1, m2), goals))
                 else:
-                    goals = [neq(a, b)]
-                obs.append(solve.make_ob(nm, goals, extra=pc, vars=self.var_names(), timeout=self.timeout,
-                                         desc=self.desc or f"{self.name}: code == reference on component {cname}",
-                                         replay=rp))
+                    goals = [neq(a, b, mark=marks)]
+                    nf = bool(marks)
+                ob = solve.make_ob(nm, goals, extra=pc, vars=self.var_names(), timeout=self.timeout,
+                                   desc=self.desc or f"{self.name}: code == reference on component {cname}",
+                                   replay=rp)
+                ob["nf_closed"] = bool(nf) and not ob.get("trivial")
+                obs.append(ob)
             over = []
             for cname, a, b, is_ang in comps:
-                over += [neq(a.cos(), b.cos())] if is_ang else [neq(a, b)]
+                if isinstance(a, Holds):
+                    over += [a.c.t] if isinstance(a.c, SB) else []
+                else:
+                    over += [neq(a.cos(), b.cos())] if is_ang else [neq(a, b)]
             obs.append(solve.twin(f"{self.name}/p{npaths}/twin", extra=pc, over=over, timeout=self.timeout))
-        return obs, {"paths": npaths, "log": CTX.log[-20:]}
+        return obs, {"paths": npaths, "log": CTX.log[-20:], "unwinding_bound_hits": core.BOUND_HITS[0]}
 
     # ---- concrete side
     def concrete_inputs(self, model):
@@ -180,8 +204,8 @@ class Case:
                 v[name] = v[opts["angle"]] / v[opts["rate"]]
         return v
 
-    def replay(self, model):
-        """run the real code on floats; reproduced iff some component differs from the reference beyond tol"""
+    def replay(self, model, component=None):
+        """run the real code on floats; reproduced iff the obligation's component differs from the reference beyond tol"""
         tried = []
         base = self.concrete_inputs(model)
         cands = [base]
@@ -205,6 +229,12 @@ class Case:
                 continue
             bad = []
             for cname, a, b, is_ang in _components(out, ref):
+                if component is not None and cname != component:
+                    continue
+                if isinstance(a, Holds):
+                    if not a.c:
+                        bad.append((cname, False, True))
+                    continue
                 a, b = float(a), float(b)
                 if not (math.isfinite(a) and math.isfinite(b)):
                     if not (math.isnan(a) and math.isnan(b)):
@@ -237,6 +267,9 @@ def _components(out, ref):
     assert set(out) == set(ref), (sorted(out), sorted(ref))
     for k in out:
         a, b = out[k], ref[k]
+        if isinstance(a, Holds):
+            yield k, a, b, False
+            continue
         is_ang = isinstance(a, Ang) or isinstance(b, Ang)
         a = a.v if isinstance(a, Ang) else a
         b = b.v if isinstance(b, Ang) else b
@@ -271,5 +304,5 @@ def replay_cases(cases, ob, model):
     name = ob["replay"]["case"]
     for c in cases:
         if c.name == name:
-            return c.replay(model)
+            return c.replay(model, ob["replay"].get("component"))
     return {"reproduced": False, "signature": "no-such-case", "detail": name}
